@@ -1,5 +1,6 @@
 """Shared driver of the C01-C04 bounded exploration (ctrlx).  Each property's check runs the same space and reports only the
 violations of its own property."""
+import os
 import random
 import time
 
@@ -11,7 +12,7 @@ GPU_ENVS = [(1, 1, {(0, 0)}), (1, 2, {(0, 0)}), (2, 2, {(0, 0)}), (2, 2, {(0, 0)
 
 def explore(out, prop, tier, seed):
     t0 = time.time()
-    budget = 45 if tier == "quick" else 600
+    budget = int(os.environ.get("VERIF_CTRL_BUDGET_S", 0)) or (45 if tier == "quick" else 600)
     runs, nontrivial, failures, samples = 0, 0, [], []
     seen_fail = set()
     schedules = set()
